@@ -111,3 +111,84 @@ func emitListIdx(t *srcTree) {
 	}
 	fmt.Println("]")
 }
+
+// astIndexSites: every index expression with a LITERAL index into a slice of a go/ast node (`.Names[0]`, `.List[0]`, `.Args[0]`, ...)
+// in cmd/ and internal/, with the enclosing function and the `len(...)` tests of that function that speak about a slice of the
+// same field name. Used by C18: the theorem pins, per site, the guards the function has - a site that loses its guard (or a new
+// unguarded site) breaks it. (`p.Names[0]` on a parameter declared without a name and `recv.Names[0]` on an unnamed receiver were
+// runtime panics found by the damaged-input runs.)
+var astSliceFields = map[string]bool{"Names": true, "List": true, "Args": true, "Values": true, "Specs": true, "Lhs": true, "Rhs": true,
+	"Elts": true, "Decls": true, "Fields": true, "Results": true, "Params": true, "Methods": true, "Comments": true}
+
+func emitAstIndex(t *srcTree) {
+	type site struct {
+		pkg, fn, x, idx string
+		guards          []string
+	}
+	var sites []site
+	for _, fn := range t.funcs {
+		// len(E) tests of the function, by the last selector of E
+		lens := map[string]map[string]bool{}
+		ast.Inspect(fn.decl.Body, func(n ast.Node) bool {
+			call, ok := n.(*ast.CallExpr)
+			if !ok || len(call.Args) != 1 {
+				return true
+			}
+			if id, ok := call.Fun.(*ast.Ident); !ok || id.Name != "len" {
+				return true
+			}
+			if sel, ok := call.Args[0].(*ast.SelectorExpr); ok {
+				if lens[sel.Sel.Name] == nil {
+					lens[sel.Sel.Name] = map[string]bool{}
+				}
+				lens[sel.Sel.Name][nodeText(t.fset, call.Args[0])] = true
+			}
+			return true
+		})
+		ast.Inspect(fn.decl.Body, func(n ast.Node) bool {
+			ix, ok := n.(*ast.IndexExpr)
+			if !ok {
+				return true
+			}
+			sel, ok := ix.X.(*ast.SelectorExpr)
+			if !ok || !astSliceFields[sel.Sel.Name] {
+				return true
+			}
+			lit, ok := ix.Index.(*ast.BasicLit)
+			if !ok || lit.Kind != token.INT {
+				return true
+			}
+			var gs []string
+			for g := range lens[sel.Sel.Name] {
+				gs = append(gs, g)
+			}
+			sort.Strings(gs)
+			sites = append(sites, site{fn.f.pkg, fn.name, nodeText(t.fset, ix.X), lit.Value, gs})
+			return true
+		})
+	}
+	sort.SliceStable(sites, func(i, j int) bool {
+		a, b := sites[i], sites[j]
+		if a.pkg != b.pkg {
+			return a.pkg < b.pkg
+		}
+		if a.fn != b.fn {
+			return a.fn < b.fn
+		}
+		return a.x < b.x
+	})
+	fmt.Println("/-- every literal index into a slice of a go/ast node (package, function, slice, index, the function's len() tests on a slice of that field name) -/")
+	fmt.Println("def astIndexSites : List (String × String × String × String × List String) := [")
+	for i, s := range sites {
+		sep := ","
+		if i == len(sites)-1 {
+			sep = ""
+		}
+		var gs []string
+		for _, g := range s.guards {
+			gs = append(gs, leanStr(g))
+		}
+		fmt.Printf("  (%s, %s, %s, %s, [%s])%s\n", leanStr(s.pkg), leanStr(s.fn), leanStr(s.x), leanStr(s.idx), strings.Join(gs, ", "), sep)
+	}
+	fmt.Println("]")
+}
